@@ -138,17 +138,129 @@ namespace fam_lockhash {
 #else
 #   define LOCKHASH_POINT() (void) 0
 #endif
+    // Lock-discipline oracle (LOCKHASH_FUNCTOR_POINTS only): the Cuckoo mutex policies are wrapped (CheckedPolicy below)
+    // so that every thread knows the hash arrays whose cell locks it holds. Whenever a key predicate is called while the
+    // thread holds cell locks (and not the full/resize lock), each key it compares must be covered: for some table t one
+    // of the held hash arrays selects the same lock cell as the key's t-th hash. The element compared lives in
+    // bucket(t, hash_t(key)) for some t, and the library only ever walks buckets addressed by a hash array it has
+    // locked, so correct code always satisfies this; a probe set walked or modified under the wrong cell lock does not.
+    struct HeldLocks {
+        struct H { size_t h[2]; size_t nlocks; };
+        H held[8];
+        int n = 0;
+        int full = 0;
+    };
+    inline HeldLocks& held_locks()
+    {
+        static thread_local HeldLocks h;
+        return h;
+    }
+    inline uint64_t& discipline_checks()
+    {
+        static uint64_t n = 0;
+        return n;
+    }
+#ifdef LOCKHASH_FUNCTOR_POINTS
+    inline void discipline_check_key( int key )
+    {
+        HeldLocks& st = held_locks();
+        if ( st.full > 0 || st.n == 0 || st.n > 8 )
+            return;
+        size_t hk[2] = { params().h[0].eval( size_t( key )), params().h[1].eval( size_t( key )) };
+        for ( int i = 0; i < st.n; ++i ) {
+            size_t nl = st.held[i].nlocks;
+            if ( nl == 0 || ( nl & ( nl - 1 )) != 0 )
+                return;     // not a power of two: cell selection unknown, no verdict
+            for ( int t = 0; t < 2; ++t )
+                if ((( st.held[i].h[t] ^ hk[t] ) & ( nl - 1 )) == 0 )
+                    return;
+        }
+        fail( "lock discipline: key " + std::to_string( key ) + " compared inside a critical section, but none of the " + std::to_string( st.n )
+            + " cell-lock sets held by the thread covers either of its probe sets" );
+    }
+    template <typename A, typename B>
+    inline void discipline_check( A const& a, B const& b )
+    {
+        HeldLocks& st = held_locks();
+        if ( st.full == 0 && st.n > 0 )
+            ++discipline_checks();
+        discipline_check_key( key_of( a ));
+        discipline_check_key( key_of( b ));
+    }
+#   undef LOCKHASH_POINT
+#   define LOCKHASH_POINT() cdsverif::point()
+#   define LOCKHASH_PRED_POINT( a, b ) do { cdsverif::point(); discipline_check( a, b ); } while ( 0 )
+#else
+#   define LOCKHASH_PRED_POINT( a, b ) (void) 0
+#endif
+
+    // wrapper of cuckoo::striping / cuckoo::refinable that records what the calling thread holds
+    template <typename Base>
+    class CheckedPolicy : public Base {
+    public:
+        using Base::Base;
+        template <typename Stat2>
+        struct rebind_statistics {
+            typedef CheckedPolicy<typename Base::template rebind_statistics<Stat2>::other> other;
+        };
+        static void push( size_t const* h, size_t nlocks )
+        {
+            HeldLocks& st = held_locks();
+            if ( st.n < 8 ) {
+                st.held[st.n].h[0] = h[0];
+                st.held[st.n].h[1] = h[1];
+                st.held[st.n].nlocks = nlocks;
+            }
+            ++st.n;
+        }
+        static void pop() { --held_locks().n; }
+        class scoped_cell_lock {
+            typename Base::scoped_cell_lock m_l;
+        public:
+            scoped_cell_lock( CheckedPolicy& p, size_t const* h ) : m_l( p, h ) { push( h, p.lock_count()); }
+            ~scoped_cell_lock() { pop(); }
+        };
+        class scoped_cell_trylock {
+            typename Base::scoped_cell_trylock m_l;
+            bool m_pushed;
+        public:
+            scoped_cell_trylock( CheckedPolicy& p, size_t const* h ) : m_l( p, h ), m_pushed( m_l.locked())
+            {
+                if ( m_pushed )
+                    push( h, p.lock_count());
+            }
+            ~scoped_cell_trylock()
+            {
+                if ( m_pushed )
+                    pop();
+            }
+            bool locked() const { return m_l.locked(); }
+        };
+        class scoped_full_lock {
+            typename Base::scoped_full_lock m_l;
+        public:
+            scoped_full_lock( CheckedPolicy& p ) : m_l( p ) { ++held_locks().full; }
+            ~scoped_full_lock() { --held_locks().full; }
+        };
+        class scoped_resize_lock {
+            typename Base::scoped_resize_lock m_l;
+        public:
+            scoped_resize_lock( CheckedPolicy& p ) : m_l( p ) { ++held_locks().full; }
+            ~scoped_resize_lock() { --held_locks().full; }
+        };
+    };
+
     struct HLess {
         template <typename A, typename B>
-        bool operator()( A const& a, B const& b ) const { LOCKHASH_POINT(); return key_of( a ) < key_of( b ); }
+        bool operator()( A const& a, B const& b ) const { LOCKHASH_PRED_POINT( a, b ); return key_of( a ) < key_of( b ); }
     };
     struct HCmp {
         template <typename A, typename B>
-        int operator()( A const& a, B const& b ) const { LOCKHASH_POINT(); return key_of( a ) < key_of( b ) ? -1 : key_of( a ) > key_of( b ) ? 1 : 0; }
+        int operator()( A const& a, B const& b ) const { LOCKHASH_PRED_POINT( a, b ); return key_of( a ) < key_of( b ) ? -1 : key_of( a ) > key_of( b ) ? 1 : 0; }
     };
     struct HEq {
         template <typename A, typename B>
-        bool operator()( A const& a, B const& b ) const { LOCKHASH_POINT(); return key_of( a ) == key_of( b ); }
+        bool operator()( A const& a, B const& b ) const { LOCKHASH_PRED_POINT( a, b ); return key_of( a ) == key_of( b ); }
     };
     template <int I>
     struct LhHash {
@@ -645,6 +757,13 @@ namespace fam_lockhash {
     namespace cc = cds::container;
     namespace ci = cds::intrusive;
 
+#ifdef LOCKHASH_FUNCTOR_POINTS
+    typedef CheckedPolicy<cds::intrusive::cuckoo::striping<>> LhStriping;
+    typedef CheckedPolicy<cds::intrusive::cuckoo::refinable<>> LhRefinable;
+#else
+    typedef cds::intrusive::cuckoo::striping<> LhStriping;
+    typedef cds::intrusive::cuckoo::refinable<> LhRefinable;
+#endif
     // Probe over intrusive::CuckooSet (reached through the protected inheritance of the container flavours too).
     // Invariants checked at quiescence: an element of table t, bucket b hashes to b with hash #t; a probe set never exceeds
     // the probe-set size; ordered probe sets are strictly increasing; a stored hash equals the computed one; the item counter
@@ -717,6 +836,10 @@ namespace fam_lockhash {
                     note_class( "cuckoo_resize_calls", st.m_nResizeCallCount.get());
                 if ( st.m_nRelocateCallCount.get())
                     note_class( "cuckoo_relocate_calls", st.m_nRelocateCallCount.get());
+                if ( discipline_checks()) {
+                    note_class( "lock_discipline_checks", discipline_checks());
+                    discipline_checks() = 0;
+                }
                 if ( st.m_nRelocateAboveThresholdCount.get())
                     note_class( "cuckoo_relocate_second_round", st.m_nRelocateAboveThresholdCount.get());
                 if ( st.m_nFailedRelocateCount.get())
@@ -736,11 +859,12 @@ namespace fam_lockhash {
         typedef LhTuple hash;
         typedef HEq equal_to;
         typedef cc::cuckoo::stat stat;
+        typedef LhStriping mutex_policy;
     };
     struct cus_list_cmp_refinable_sh : cc::cuckoo::traits {
         typedef LhTuple hash;
         typedef HCmp compare;
-        typedef cc::cuckoo::refinable<> mutex_policy;
+        typedef LhRefinable mutex_policy;
         static bool const store_hash = true;
     };
     struct cus_vec2_less_striping_sh : cc::cuckoo::traits {
@@ -748,18 +872,19 @@ namespace fam_lockhash {
         typedef HLess less;
         typedef cc::cuckoo::vector<2> probeset_type;
         static bool const store_hash = true;
+        typedef LhStriping mutex_policy;
     };
     struct cus_vec4_eq_refinable : cc::cuckoo::traits {
         typedef LhTuple hash;
         typedef HEq equal_to;
         typedef cc::cuckoo::vector<4> probeset_type;
-        typedef cc::cuckoo::refinable<> mutex_policy;
+        typedef LhRefinable mutex_policy;
         typedef cc::cuckoo::stat stat;
     };
     struct cus_list_eq_refinable_sh : cc::cuckoo::traits {
         typedef LhTuple hash;
         typedef HEq equal_to;
-        typedef cc::cuckoo::refinable<> mutex_policy;
+        typedef LhRefinable mutex_policy;
         static bool const store_hash = true;
         typedef cc::cuckoo::stat stat;
     };
@@ -767,7 +892,7 @@ namespace fam_lockhash {
     struct cum_list_less_refinable : cc::cuckoo::traits {
         typedef LhTuple hash;
         typedef MapLess less;
-        typedef cc::cuckoo::refinable<> mutex_policy;
+        typedef LhRefinable mutex_policy;
         typedef cc::cuckoo::stat stat;
     };
     struct cum_vec2_eq_striping_sh : cc::cuckoo::traits {
@@ -775,17 +900,19 @@ namespace fam_lockhash {
         typedef MapEq equal_to;
         typedef cc::cuckoo::vector<2> probeset_type;
         static bool const store_hash = true;
+        typedef LhStriping mutex_policy;
     };
     struct cum_list_eq_striping : cc::cuckoo::traits {
         typedef LhTuple hash;
         typedef MapEq equal_to;
         typedef cc::cuckoo::stat stat;
+        typedef LhStriping mutex_policy;
     };
     struct cum_vec4_cmp_refinable : cc::cuckoo::traits {
         typedef LhTuple hash;
         typedef HCmp compare;
         typedef cc::cuckoo::vector<4> probeset_type;
-        typedef cc::cuckoo::refinable<> mutex_policy;
+        typedef LhRefinable mutex_policy;
     };
 
     // ---- intrusive::CuckooSet nodes and traits -------------------------------------------
@@ -818,31 +945,33 @@ namespace fam_lockhash {
         typedef LhTuple hash;
         typedef HEq equal_to;
         typedef ci::cuckoo::stat stat;
+        typedef LhStriping mutex_policy;
     };
     struct icu_list_less_refinable_sh2 : ci::cuckoo::traits {
         typedef ci::cuckoo::base_hook<ci::cuckoo::probeset_type<ci::cuckoo::list>, ci::cuckoo::store_hash<2>> hook;
         typedef LhTuple hash;
         typedef HLess less;
-        typedef ci::cuckoo::refinable<> mutex_policy;
+        typedef LhRefinable mutex_policy;
         typedef ci::cuckoo::stat stat;
     };
     struct icu_vec2_eq_refinable : ci::cuckoo::traits {
         typedef ci::cuckoo::base_hook<ci::cuckoo::probeset_type<ci::cuckoo::vector<2>>> hook;
         typedef LhTuple hash;
         typedef HEq equal_to;
-        typedef ci::cuckoo::refinable<> mutex_policy;
+        typedef LhRefinable mutex_policy;
     };
     struct icu_mvec4_cmp_striping_sh2 : ci::cuckoo::traits {
         typedef ci::cuckoo::member_hook<offsetof( CuMNode_vec4_2, hMember ), ci::cuckoo::probeset_type<ci::cuckoo::vector<4>>, ci::cuckoo::store_hash<2>> hook;
         typedef LhTuple hash;
         typedef HCmp compare;
         typedef ci::cuckoo::stat stat;
+        typedef LhStriping mutex_policy;
     };
     struct icu_mlist_eq_refinable : ci::cuckoo::traits {
         typedef ci::cuckoo::member_hook<offsetof( CuMNode_list0, hMember ), ci::cuckoo::probeset_type<ci::cuckoo::list>> hook;
         typedef LhTuple hash;
         typedef HEq equal_to;
-        typedef ci::cuckoo::refinable<> mutex_policy;
+        typedef LhRefinable mutex_policy;
     };
 
     template <typename Traits>
